@@ -40,6 +40,8 @@ pub fn eval_projset_bb(c: &C09Case, which: &str) -> CaseResult {
     // outputs that a wrong `--clean` would delete
     for p in &ps.projects {
         sb.write(&format!("{}/out/precious.txt", p.dir), b"keep me");
+        // recorded state that a refused invocation must leave alone
+        sb.write(&format!("{}/.zinoma/planted.checksums", p.dir), b"planted");
     }
     let mut res = CaseResult {
         sample: json!({"projects": ps.summary()}),
@@ -61,13 +63,25 @@ pub fn eval_projset_bb(c: &C09Case, which: &str) -> CaseResult {
         }
         names.extend(extra);
     }
+    // one case in five: `--clean` alone, which works on every target of every loaded project
+    let bare_clean = which != "c19" && c.req.first().is_some_and(|b| b % 5 == 1);
+    let roots: Vec<(usize, usize)> = if bare_clean {
+        ps.loaded()
+            .into_iter()
+            .flat_map(|pi| (0..ps.projects[pi].targets.len()).map(move |ti| (pi, ti)))
+            .collect()
+    } else {
+        roots
+    };
     let reference = if schema_reasons.is_empty() { ps.reference_closure(&roots) } else { Err(schema_reasons.join("; ")) };
-    let clean = c.req.first().is_some_and(|b| b % 3 == 0);
+    let clean = bare_clean || c.req.first().is_some_and(|b| b % 3 == 0);
     let mut args: Vec<String> = vec![];
     if clean {
         args.push("--clean".into());
     }
-    args.extend(names.iter().cloned());
+    if !bare_clean {
+        args.extend(names.iter().cloned());
+    }
     res.sample["args"] = json!(args);
     let before = snapshot(&sb.root);
     let runs = if which == "c14" { 5 } else { 1 };
@@ -119,6 +133,9 @@ pub fn eval_projset_bb(c: &C09Case, which: &str) -> CaseResult {
     match &reference {
         Err(why) => {
             classes.push("rejection-expected".into());
+            if bare_clean {
+                classes.push("bare-clean".into());
+            }
             if out.success() {
                 return fail(res, "accepted-invalid", format!("`zinoma {}` exited 0 although: {}", args.join(" "), why));
             }
@@ -133,6 +150,16 @@ pub fn eval_projset_bb(c: &C09Case, which: &str) -> CaseResult {
                 if after.get(p) != Some(e) {
                     return fail(res, "side-effect", format!("`zinoma {}` was refused ({}), yet {} was deleted or modified", args.join(" "), why, p.display()));
                 }
+            }
+        }
+        Ok(_) if bare_clean => {
+            // nothing runs; the work directories are removed (details are C12's business)
+            classes.push("bare-clean".into());
+            if !out.success() {
+                return fail(res, "rejected-valid", format!("`zinoma --clean` failed ({:?}) on a valid configuration: {}", out.status, out.stderr.lines().last().unwrap_or("")));
+            }
+            if !trace.is_empty() {
+                return fail(res, "bare-clean-ran", "`zinoma --clean` ran scripts".into());
             }
         }
         Ok(clo) => {
